@@ -638,7 +638,7 @@ def parse_pred_expr(lexer, unary_minus=False):
                     func_call(
                         "equals",
                         func_call("type", expr, None, pos),
-                        NodeLiteral(ValueString("lsit"), pos),
+                        NodeLiteral(ValueString("list"), pos),
                         pos,
                     ),
                     pos,
